@@ -169,7 +169,7 @@ pub struct SemOpts {
 
 /// Run one case. Returns the observation record for the semantic judge and (when programs,
 /// costs or traces were requested) the record for the machine-level judge.
-pub fn run_case(idx: usize, case: &Value, o: &SemOpts) -> (Value, Option<Value>) {
+pub fn run_case(idx: usize, case: &Value, o: &SemOpts) -> (Value, Option<Value>, Vec<Value>) {
     let fl = Fl::from_json(&case["fl"]);
     let pat = ast::render_pattern(&case["ast"], fl);
     let mut rec = serde_json::Map::new();
@@ -203,7 +203,7 @@ pub fn run_case(idx: usize, case: &Value, o: &SemOpts) -> (Value, Option<Value>)
     );
     let (re_opt, re_noopt) = match (re_opt, re_noopt) {
         (Ok(a), Ok(b)) => (a, b),
-        _ => return (Value::Object(rec), None),
+        _ => return (Value::Object(rec), None, Vec::new()),
     };
 
     #[cfg(all(regress_verif, not(feature = "f-alloc")))]
@@ -322,7 +322,7 @@ pub fn run_case(idx: usize, case: &Value, o: &SemOpts) -> (Value, Option<Value>)
         // cost and traces of the whole iteration from start 0, both executors, both pipelines
         #[cfg(all(regress_verif, not(feature = "f-alloc")))]
         if o.cost {
-            let mut c = serde_json::Map::new();
+            let mut c: Vec<i64> = Vec::new();
             let want_trace = o.trace_every > 0 && (idx + hi) % o.trace_every == 0;
             for (name, re, eng) in [
                 ("bt_opt", &re_opt, Engine::Bt),
@@ -335,23 +335,46 @@ pub fn run_case(idx: usize, case: &Value, o: &SemOpts) -> (Value, Option<Value>)
                 let rc = regress::verif::end();
                 match r {
                     Ok(_) => {
-                        c.insert(name.into(), json!([rc.steps, rc.max_depth]));
+                        c.push(rc.steps as i64);
+                        c.push(rc.max_depth as i64);
                         if want_trace && rc.dropped == 0 {
-                            let ev: Vec<[u32; 5]> = rc
-                                .events
-                                .iter()
-                                .map(|e| [e.kind as u32, e.ip, e.pos, e.depth, e.forward as u32])
-                                .collect();
-                            traces.push(json!({"h": hi, "var": name, "ev": ev}));
+                            // keep instruction dispatches and the top-level attempt brackets
+                            let mut ev: Vec<[u32; 5]> = Vec::new();
+                            let mut nest = 0i32;
+                            for e in rc.events.iter() {
+                                let keep = match e.kind {
+                                    regress::verif::EV_ENTER => {
+                                        nest += 1;
+                                        nest == 1
+                                    }
+                                    regress::verif::EV_LEAVE => {
+                                        nest -= 1;
+                                        nest == 0
+                                    }
+                                    regress::verif::EV_INSN => true,
+                                    _ => false,
+                                };
+                                if keep {
+                                    ev.push([e.kind as u32, e.ip, e.pos, e.depth, e.forward as u32]);
+                                }
+                            }
+                            #[cfg(all(regress_verif, not(feature = "f-alloc")))]
+                            {
+                                let prog: Value = serde_json::from_str(&re.verif_program_json()).unwrap();
+                                let bytes: Vec<u32> = hay.text.bytes().map(|b| b as u32).collect();
+                                traces.push(json!({"rid": idx, "h": hi, "var": name, "engine": if eng == Engine::Bt { "bt" } else { "pv" },
+                                    "prog": prog, "bytes": bytes, "pats": ast::cps_to_display(&pat), "flags": fl.as_string(), "ev": ev}));
+                            }
                         }
                     }
                     Err(e) => {
-                        c.insert(name.into(), json!([-1, -1]));
+                        c.push(-1);
+                        c.push(-1);
                         fails.push(json!({"h": hi, "s": 0, "var": format!("cost_{}", name), "what": e}));
                     }
                 }
             }
-            costs.push(Value::Object(c));
+            costs.push(json!(c));
         }
     }
     rec.insert("obs".into(), Value::Array(obs));
@@ -361,18 +384,17 @@ pub fn run_case(idx: usize, case: &Value, o: &SemOpts) -> (Value, Option<Value>)
     rec.insert("nvar".into(), json!(nvariants));
     vm.insert("bfirst".into(), Value::Array(bfirst));
     if o.cost {
-        vm.insert("cost".into(), Value::Array(costs));
-        vm.insert("traces".into(), Value::Array(std::mem::take(&mut traces)));
+        rec.insert("cost".into(), Value::Array(costs));
     }
-    let _ = &mut traces;
     let want_vm = o.progs || o.cost;
-    (Value::Object(rec), if want_vm { Some(Value::Object(vm)) } else { None })
+    (Value::Object(rec), if want_vm { Some(Value::Object(vm)) } else { None }, traces)
 }
 
 pub fn main(args: &[String]) -> i32 {
     let mut cases_path = String::new();
     let mut out_path = String::new();
     let mut vm_path = String::new();
+    let mut trace_path = String::new();
     let mut shard = (0usize, 1usize);
     let mut skip = 0usize;
     let mut o = SemOpts {
@@ -389,6 +411,7 @@ pub fn main(args: &[String]) -> i32 {
             "--cases" => cases_path = it.next().unwrap().clone(),
             "--out" => out_path = it.next().unwrap().clone(),
             "--vm-out" => vm_path = it.next().unwrap().clone(),
+            "--trace-out" => trace_path = it.next().unwrap().clone(),
             "--shard" => {
                 let s = it.next().unwrap();
                 let (a, b) = s.split_once('/').unwrap();
@@ -426,6 +449,17 @@ pub fn main(args: &[String]) -> i32 {
                 .expect("open vm out"),
         ))
     };
+    let mut trace_out = if trace_path.is_empty() {
+        None
+    } else {
+        Some(std::io::BufWriter::new(
+            std::fs::OpenOptions::new()
+                .create(true)
+                .append(true)
+                .open(&trace_path)
+                .expect("open trace out"),
+        ))
+    };
     let mut done = 0usize;
     for (idx, line) in std::io::BufReader::new(f).lines().enumerate() {
         let line = line.unwrap();
@@ -439,7 +473,13 @@ pub fn main(args: &[String]) -> i32 {
         let case: Value = serde_json::from_str(&line).expect("case json");
         // announce the case on stderr first so that an abort can be attributed
         eprintln!("CASE {}", idx);
-        let (rec, vm) = run_case(idx, &case, &o);
+        let (rec, vm, traces) = run_case(idx, &case, &o);
+        if let Some(w) = trace_out.as_mut() {
+            for t in traces {
+                writeln!(w, "{}", t).unwrap();
+            }
+            w.flush().unwrap();
+        }
         writeln!(out, "{}", rec).unwrap();
         out.flush().unwrap();
         if let (Some(w), Some(vm)) = (vm_out.as_mut(), vm) {
